@@ -254,6 +254,8 @@ func init() {
 	witness("witness-commitment-wrong", ClsBlock, "wrong")
 	witness("witness-without-commitment", ClsBlock, "none")
 	witness("witness-nonce-31-bytes", ClsBlock, "nonce31")
+	witness("witness-commitment-with-trailing-data", ClsValid, "long")
+	witness("witness-commitment-wrong-with-trailing-data", ClsBlock, "wrong-long")
 	witness("witness-two-commitments-last-good", ClsValid, "two-last-good")
 	witness("witness-two-commitments-last-bad", ClsBlock, "two-last-bad")
 
